@@ -614,21 +614,28 @@ def r_bisect(ctx: RuleCtx, col: Collector):
         par = getattr(lp, "_parent", None)
         sibs = par.body if par is not None and hasattr(par, "body") else []
         before = sibs[:sibs.index(lp)] if lp in sibs else []
-        vals: Dict[str, ast.AST] = {}
+        vals: Dict[str, object] = {}
         where_init = None
         for st in before:        # the last assignment of each end of the bracket in front of the loop (either form)
             if isinstance(st, ast.Assign):
                 t = st.targets[0]
-                pairs = list(zip(t.elts, st.value.elts)) if isinstance(t, ast.Tuple) and isinstance(st.value, ast.Tuple) and \
-                    len(t.elts) == len(st.value.elts) else [(t, st.value)]
-                for a, v in pairs:
-                    if norm(a) in (lo, hi):
-                        vals[norm(a)] = v
-                        where_init = st
+                # a conditional expression initialises the bracket differently per branch: every branch is judged
+                alts = [st.value.body, st.value.orelse] if isinstance(st.value, ast.IfExp) else [st.value]
+                fresh: Dict[str, List[ast.AST]] = {}
+                for alt in alts:
+                    pairs = list(zip(t.elts, alt.elts)) if isinstance(t, ast.Tuple) and isinstance(alt, ast.Tuple) and \
+                        len(t.elts) == len(alt.elts) else [(t, alt)]
+                    for a, v in pairs:
+                        if norm(a) in (lo, hi):
+                            fresh.setdefault(norm(a), []).append(v)
+                            where_init = st
+                for k_, vs_ in fresh.items():
+                    vals[k_] = vs_
         if len(vals) == 2:
             st = where_init
             params = set(oc.pos_params()) | set(oc.kwonly())
-            okinit = all(isinstance(v, ast.Name) and v.id in params for v in vals.values())
+            okinit = all(isinstance(v, ast.Name) and v.id in params for vs_ in vals.values() for v in vs_)
+            vals = {k_: vs_[0] if len(vs_) == 1 else ast.Tuple(elts=list(vs_), ctx=ast.Load()) for k_, vs_ in vals.items()}
             if okinit:
                 col.ok(where_of(oc), oc.rel, line_of(st), "bisection bracket initialised from the caller's bracket",
                        ", ".join(f"{k} = {norm(v)}" for k, v in sorted(vals.items())))
